@@ -486,7 +486,11 @@ func runSCIONServer(ctx context.Context, log *slog.Logger, mtrcs *scionServerMet
 				}
 
 				ntsresp := nts.NewResponsePacket(cookies, serverCookie.S2C, ntsreq.UniqueID.ID)
-				nts.EncodePacket(&udpLayer.Payload, &ntsresp)
+				err = nts.EncodePacket(&udpLayer.Payload, &ntsresp)
+				if err != nil {
+					log.LogAttrs(ctx, slog.LevelInfo, "failed to encode NTS packet", slog.Any("error", err))
+					continue
+				}
 			}
 
 			payload := gopacket.Payload(udpLayer.Payload)
